@@ -244,5 +244,18 @@ PROPS["C12"] = {
     "technique": "runtime monitoring: offline checker over handler event log + per-client frame logs (exactly-once, addressing, ordering) under failpoint-perturbed poll loop",
 }
 
+PROPS["C19"] = {
+    "level": "exploration",
+    "engines": [
+        {"bin": "hv", "args": ["c19"], "needs": ["server"]},
+    ],
+    "min": {"quick": {"configurations": 240, "requests": 4500, "expected_dropped": 200, "expected_403": 400, "expected_normal": 1500, "served_normally": 1500},
+            "thorough": {"configurations": 3800}},
+    "assumptions": [],
+    "level_text": "The real server binary, rebuilt from the working tree, is started from generated configuration files; clients bound to chosen loopback source addresses send requests with forged and genuine X-Forwarded-For headers to every route type, and the bytes/EOF each client observes are judged against the blacklist rule.",
+    "level_note": "Trusted: the expectation function in c19.rs, socket2 source-address binding, the scripted upstream.",
+    "technique": "runtime monitoring: black-box wire monitor of the real server process over generated configurations and source addresses",
+}
+
 # properties without a check, with the reason (kept current)
 NOT_CLAIMED = {}
